@@ -95,6 +95,24 @@ def parse_case_line(line):
     return case
 
 
+def rebase_wallclock(case, now_ns=None):
+    """ExpireSessions reads the wall clock (time.Since): a stored case with E steps was generated relative to the moment
+    it was written.  Shift all its timestamps so that its newest E step means "now" again.  Returns None for a case that
+    cannot be shifted (captcha tokens carry absolute timestamps inside their signed purpose)."""
+    es = [e["now"] for e in case["entries"] if e["k"] == "E"]
+    if not es:
+        return case
+    if any(o.startswith("O captcha") for o in case["oracles"]):
+        return None
+    delta = (now_ns if now_ns is not None else time.time_ns()) - max(es)
+    for e in case["entries"]:
+        if "ts" in e:
+            e["ts"] += delta
+        if e["k"] == "E":
+            e["now"] += delta
+    return case
+
+
 # ------------------------------------------------------------------ IRC case mapping / syntax (Go semantics)
 def go_tolower(b):
     """strings.ToLower on a byte string, for the modelled domain: ASCII, Latin-1 (as UTF-8) and the runes
@@ -899,7 +917,7 @@ class Gen(object):
     # ---- captcha
     def _token(self, kind=None, cmd=b"join", arg=b""):
         r = self.rng
-        kind = kind or r.choice(["ok", "ok", "ok", "mutated", "replayed", "expired", "garbage", "future"])
+        kind = kind or r.choice(["ok", "ok", "ok", "mutated", "replayed", "expired", "garbage", "future", "shape"])
         ns = self.ts - r.randint(0, 200) * SEC
         if kind == "expired":
             ns = self.ts - r.randint(400, 4000) * SEC
@@ -921,6 +939,19 @@ class Gen(object):
                 tok = tok[:-6] + b"AAAAA="
         elif kind == "garbage":
             tok = r.choice([b"abc", b"a.b.c", b"....", b"YQ==.YQ==", b"YQ==.YQ==.YQ==", b"!.!.!"])
+        elif kind == "shape":
+            # purposes that start with "okay:" but do not have the four fields okay:<command>:<lastactivity>:<argument>,
+            # correctly signed, signed with another key, or not signed at all
+            purpose = r.choice([b"okay:", b"okay:join", b"okay:join:", b"okay::", b"okay:join:%d" % ns, b"okay:join:%d:#a:b" % ns,
+                                b"okay:join:soon:" + arg, b"okay:join:99999999999999999999:" + arg, b"okay:join: %d:%s" % (ns, arg),
+                                b"okay:join:-1:" + arg, b"okay:join:+%d:%s" % (ns, arg), b"okay:join:0x10:" + arg])
+            k = r.random()
+            if k < 0.5:
+                tok = captcha_token(self.secret, purpose, b"%08x" % r.getrandbits(32))
+            elif k < 0.75:
+                tok = captcha_token(bytes(32), purpose)
+            else:
+                tok = base64.b64encode(purpose) + b"." + base64.b64encode(b"x") + b"." + r.choice([b"", base64.b64encode(b"y")])
         self.oracles.append("O captcha %s %s" % (hx(tok), "invalid" if captcha_oracle(self.secret, tok) is None
                                                   else str(captcha_oracle(self.secret, tok))))
         return tok
@@ -1090,7 +1121,9 @@ class Gen(object):
                 return b"MODE %s %s" % (c, b" ".join([ms] + params))
             k = r.random()
             if k < 0.25:
-                m = r.choice([b"+t", b"-t", b"+s", b"-s", b"+i", b"-i", b"+n", b"-n", b"+x", b"-x", b"+tn", b"-t+s", b"+z", b"+1"])
+                m = r.choice([b"+t", b"-t", b"+s", b"-s", b"+i", b"-i", b"+n", b"-n", b"+x", b"-x", b"+tn", b"-t+s", b"+z", b"+1",
+                              # non-ASCII mode characters: Go walks the mode string by runes and answers string(byte)
+                              b"+\xc3\xbc", b"+t\xc3\xbci", b"-\xe2\x82\xac", b"+\xf0\x9f\x98\x80s", b"\xc3\xa9", b"+b\xc3\xbc"])
                 return b"MODE %s %s" % (c, m)
             if k < 0.4:
                 if r.random() < 0.7:
@@ -1104,7 +1137,13 @@ class Gen(object):
                 mask = r.choice(BAN_MASKS)
                 if r.random() < 0.25:
                     tgt = r.choice(self.sess)
-                    mask = r.choice([b"*!*@robust/0x%x" % tgt.sid, (tgt.nick or b"x") + b"!*@*", b"*!*@" + tgt.ra])
+                    mask = r.choice([b"*!*@robust/0x%x" % tgt.sid, (tgt.nick or b"x") + b"!*@*", b"*!*@" + tgt.ra,
+                                     # session references behind text whose case mappings have other lengths, unparsable / unknown /
+                                     # out-of-range session references, underscores (ParseInt base 0), upper-case hex
+                                     b"\xc8\xba" * r.randint(3, 9) + b"!*@robust/0x%x" % tgt.sid, b"\xc4\xb0\xc4\xb0*!*@robust/0x%x" % tgt.sid,
+                                     b"*!*@robust/0x%x*" % tgt.sid, b"*!*@robust/0xzz", b"*!*@robust/0x", b"*!*@robust/0x%x" % (tgt.sid + 977),
+                                     b"*!*@robust/0x8000000000000000", b"*!*@robust/0xffffffffffffffff", b"*!*@robust/0x%X" % tgt.sid,
+                                     b"*!*@robust/0x_%x" % tgt.sid, b"*!*@ROBUST/0x%x" % tgt.sid, b"robust/0x%x" % tgt.sid])
                 return b"MODE %s %s" % (c, r.choice([b"+b ", b"+b ", b"-b "]) + mask) if r.random() < 0.9 else b"MODE %s +b" % c
             return b"MODE %s %s %s %s" % (c, r.choice([b"+ob", b"+kb", b"-o+o", b"+bb"]), self._anynick(), r.choice(BAN_MASKS))
         if cmd == "TOPIC":
